@@ -2,6 +2,7 @@ import FxVerif.Model.C12
 import FxVerif.Model.C12Sig
 import FxVerif.Model.C12Env
 import FxVerif.Model.C12Genesis
+import FxVerif.Model.C12Msg
 import FxVerif.Model.Util
 /-! line-protocol driver for the C12 model: `lake env lean --run Driver/C12.lean < ops.txt`
 
@@ -26,6 +27,9 @@ ops (numbers decimal, addresses / byte strings hex, `-` = empty):
   runs through the key plan AND the statement list of ValidateConfirmSign regenerated from the Go source (`confirmStepGV`)
 * `verifysig <file> <digest> <sig65> <signer> <msgHash> <rec|->` — `verifySig` of that contract file (regenerated source
   structure, the model's own Keccak over the regenerated `abi.encodePacked` arguments); answer `true|false`
+* `branch` / `discard` / `commit` — open a branch of the whole state (`CacheContext`), drop it, keep it: `ok`
+* `vbasic <oset|batch|bcall> <chain registered 0|1> <bridger bech32 ok 0|1> <external ok 0|1> <token ok 0|1|-> <sig hex | ! | ->`
+  — `ValidateBasic` of the confirm message (regenerated check list, interpreted by `vbRun`): `ok` or the text of the failing check
 * `remove <c> <site> <oset|batch|bcall> <key…>` — a pruning site of the source (`deleteSites`, regenerated) removes the
   object; answer `ok` + the confirms left under the key + `live=<0|1>` + `n=<all confirms>`
 -/
@@ -38,6 +42,8 @@ structure Chain where
 
 structure St where
   chains : List (String × Chain) := []
+  /-- branches of the state that are open (`CacheContext` without a `write` yet): the states to return to on `discard` -/
+  saved : List (List (String × Chain)) := []
 
 def splitList (s : String) : List (List String) :=
   if s == "-" then [] else (s.splitOn ",").map (·.splitOn ":")
@@ -137,6 +143,29 @@ def doVerifySig (file d sig signer mh rc : String) : String :=
 def stepLine (s : St) (line : String) : St × String :=
   match words line with
   | "reset" :: _ => ({}, "ok")
+  -- `branch` opens a branch of the whole state (a failed multi-message transaction, CheckTx, a simulation: `CacheContext`);
+  -- `discard` drops everything done since (`branchRun`/`discardBranch` of Model/C12Msg: the state is the one before), `commit`
+  -- keeps it
+  | ["branch"] => ({ s with saved := s.chains :: s.saved }, "ok")
+  | ["discard"] =>
+    match s.saved with
+    | old :: rest => ({ s with chains := old, saved := rest }, "ok")
+    | [] => (s, "bad-op")
+  | ["commit"] =>
+    match s.saved with
+    | _ :: rest => ({ s with saved := rest }, "ok")
+    | [] => (s, "bad-op")
+  | ["vbasic", kind, reg, b32, extOk, tokOk, sig] =>
+    let key : Option ObjKey := match kind with
+      | "oset" => some (.oracleSet 0) | "batch" => some (.batch "T" 0) | "bcall" => some (.bridgeCall 0) | _ => none
+    let sigv : Option (Option (List Nat)) := if sig == "!" then some none else if sig == "-" then some (some []) else (unhex sig).map some
+    match key, sigv with
+    | some k, some sv =>
+      let E : VbEnv := ⟨fun _ => reg == "1", fun _ => b32 == "1", fun _ x => if x == "T" then tokOk == "1" else extOk == "1"⟩
+      match validateBasic E ⟨"C", ⟨k, "B", "E", sv⟩⟩ with
+      | none => (s, "ok")
+      | some c => (s, "rej:" ++ c.text.replace " " "-")
+    | _, _ => (s, "bad-op")
   | ["verifysig", file, d, sig, signer, mh, rc] => (s, doVerifySig file d sig signer mh rc)
   | ["chain", c, style, gid] =>
     match unhexD gid with
